@@ -6,6 +6,23 @@ BASELINE_OFF = ("cd /repo && /venv/bin/python -m pytest -ra -q -p no:cacheprovid
 TECH = "sidecar contracts on the real functions + AST->SMT VC generation (pyvc), discharged by z3/cvc5; native replay"
 
 CLAIMED = {
+    "C04": dict(
+        category="proof",
+        text="PARTIAL (step accounting + readiness gate). Playfield bookkeeping: the balls setter (events iff the "
+             "count changes, ball search enabled iff balls > 0), add_missing_balls, _ball_removed_handler2, "
+             "_source_device_ejecting_ball / eject_failed / eject_success / ball_lost and add_ball each move exactly n "
+             "balls between balls, available_balls and num_balls_requested and touch nothing else, for all values and "
+             "targets. BallCountHandler: _set_ball_count (count, device mirror, has-balls flag iff > 0, one change "
+             "event), start_eject / end_eject (counting lock taken once and released on every path; -1 iff the ball "
+             "left; +1 first when the ball had already left), entrance_during_eject (+1, arrival reported once). "
+             "Readiness gate: wait_for_ready_to_receive returns True only when, with no await since they were read, "
+             "capacity - count > incoming balls, the counter is ready and the device is not ejecting.",
+        note="NOT decided (stated in DESIGN 4.C04/5): equality of counts with physical ball positions, sums equal to "
+             "num_balls_known, global non-negativity / capacity bounds across the device's tasks, the counters "
+             "(switch_counter, entrance_switch_counter), incoming/outgoing handlers and ball_controller. Known "
+             "finding F-C04-a (playfield count goes negative transiently). Bounded: <= 2 waiting futures in "
+             "_set_ball_count and its callers. Trusted: asyncio primitives, event posting, the rely at awaits.",
+        ref="4.C04"),
     "C06": dict(
         text="Every lifecycle coroutine of modes/game/code/game.py is verified against the fixed word of events it "
              "must post, with the right kinds (plain / queue / relay) and the right player, player number, ball number "
